@@ -114,6 +114,8 @@ m("C05-counts-adopted-early", ["C05", "C06"], "hexary.py",
   "            try:\n                yield memory_trie\n            finally:\n                if self.is_pruning:\n                    self._ref_count.clear()\n                    self._ref_count.update(batch_ref_count)\n")
 # Equivalent mutants (documented, not run): no listed property can observe them.
 EQUIVALENT = [
+    ("C09-cache-stale-keep", "fog.py: TrieFrontierCache.add no longer pops the entry of the explored prefix - "
+     "a memory-only effect, the prefix is never looked up again once explored"),
     ("C05-commit-order-reversed", "utils/db.py: commit loop iterates reversed(cache.items()) - the outer root "
      "is adopted only after every write, so a failing write at any position leaves the same observable state"),
 ]
@@ -173,3 +175,61 @@ m("C08-ext-value", ["C08"], "utils/nodes.py",
 m("C08-path-to-node", ["C08"], "hexary.py",
   "        node, remaining_key = self._traverse(self.root_hash, trie_key)\n\n        annotated_node = annotate_node(node)\n\n        if remaining_key:\n            path_to_node = trie_key[: len(trie_key) - len(remaining_key)]",
   "        node, remaining_key = self._traverse(self.root_hash, trie_key)\n\n        annotated_node = annotate_node(node)\n\n        if remaining_key:\n            path_to_node = trie_key[: max(len(trie_key) - len(remaining_key), 1)]")
+
+# ---- C10 ------------------------------------------------------------------------------
+m("C10-suffix-ge", ["C10"], "iter.py",
+  "        if node.suffix > key:", "        if node.suffix >= key:")
+m("C10-segcmp", ["C10"], "iter.py",
+  "            if key[: len(next_segment)] > next_segment:",
+  "            if key[: len(next_segment)] >= next_segment:")
+m("C10-nearest-unknown", ["C10"], "iter.py",
+  "                nearest_prefix = next_fog.nearest_right(())",
+  "                nearest_prefix = next_fog.nearest_unknown((8,))")
+m("C10-valorder", ["C10"], "iter.py",
+  "        if node.value:\n            # This is either a leaf node, or a branch node with a value.\n            # The value in a branch node comes before all the child values\n            return traversed + node.suffix\n        elif len(node.sub_segments) == 0:",
+  "        if node.value and len(node.sub_segments) == 0:\n            return traversed + node.suffix\n        elif len(node.sub_segments) == 0:")
+m("C10-skip-continue", ["C10"], "iter.py",
+  "                    if next_key is None:\n                        # Could not find a key to the right in any sub-node.",
+  "                    if next_key is None and len(traversed) < 3:\n                        # Could not find a key to the right in any sub-node.")
+
+# ---- C11 ------------------------------------------------------------------------------
+m("C11-nearest_right-noprefixtest", ["C11"], "fog.py",
+  "            if key_starts_with(key, nearest_left):\n                return nearest_left\n            else:\n                try:",
+  "            if key_starts_with(key, nearest_left) or index == len(self._unexplored_prefixes) - 1 and len(key) > 5:\n                return nearest_left\n            else:\n                try:")
+m("C11-nearest_unknown-last", ["C11"], "fog.py",
+  "        elif index == len(self._unexplored_prefixes):\n            return self._unexplored_prefixes[-1]",
+  "        elif index == len(self._unexplored_prefixes):\n            return self._unexplored_prefixes[0]")
+m("C11-nested", ["C11"], "fog.py",
+  "                    if trimmed_segment in sub_segments:", "                    if False:")
+m("C11-explore-mutates-self", ["C11"], "fog.py",
+  "        new_fog_prefixes = self._unexplored_prefixes.copy()\n\n        try:",
+  "        new_fog_prefixes = self._unexplored_prefixes\n\n        try:")
+m("C11-mark-ignores-unknown", ["C11"], "fog.py",
+  "            if prefix not in new_unexplored_prefixes:\n                raise ValidationError(",
+  "            if prefix not in new_unexplored_prefixes:\n                continue\n                raise ValidationError(")
+m("C11-dup-check", ["C11"], "fog.py",
+  "        if len(set(sub_segments)) != len(sub_segments):",
+  "        if len(set(sub_segments)) != len(sub_segments) and len(sub_segments) > 2:")
+m("C11-serialize-terminator", ["C11"], "fog.py",
+  "                Nibbles(decode_nibbles(prefix))\n",
+  "                Nibbles(decode_nibbles(prefix)[:7])\n")
+m("C11-distance", ["C11"], "fog.py",
+  "            if left_distance < right_distance:\n                return nearest_left",
+  "            if left_distance < right_distance and len(key) < 5:\n                return nearest_left")
+
+# ---- C09 ------------------------------------------------------------------------------
+m("C09-cacheadd", ["C09"], "fog.py",
+  "            self._cache[new_prefix] = (trie_node, Nibbles(segment))",
+  "            self._cache[new_prefix] = (trie_node, new_prefix)")
+m("C09-explore-drops-child", ["C09", "C11"], "fog.py",
+  "        new_fog_prefixes.update([old_prefix + segment for segment in sub_segments])",
+  "        new_fog_prefixes.update([old_prefix + segment for segment in sub_segments[:15]])")
+m("C09-annotate-drops-last", ["C09", "C08"], "utils/nodes.py",
+  "Nibbles((nibble,)) for nibble in range(16) if bool(node_body[nibble])",
+  "Nibbles((nibble,)) for nibble in range(15) if bool(node_body[nibble])")
+m("C09-simleaf-value", ["C09", "C08"], "exceptions.py",
+  "            return HexaryTrieNode(\n                (),\n                actual_node.value,\n                trimmed_suffix,",
+  "            return HexaryTrieNode(\n                (),\n                b\"\",\n                trimmed_suffix,")
+m("C09-leaf-diverge-partial", ["C09", "C08"], "hexary.py",
+  "                if key_starts_with(leaf_key, remaining_key):\n                    return node, remaining_key\n                else:",
+  "                if key_starts_with(leaf_key, remaining_key) or len(remaining_key) == 1:\n                    return node, remaining_key\n                else:")
